@@ -37,6 +37,7 @@ PROBES = [
     "noop-add",
     "noop-remove",
     "batch-died-midway",
+    "add-interrupted-by-subscriber",
 ]
 KNOWN_PREDICATES = {}
 
@@ -85,6 +86,7 @@ def generate(seed, tier):
         "rollback": g.choice([1, 2, 3]),
     }
     small = g.chance(0.5)  # small vocabulary => many collisions on the same quad
+    veto_mode = g.chance(0.25)
     ops = []
     uid = 0
     sched = Stream(seed, "sched")
@@ -111,6 +113,8 @@ def generate(seed, tier):
                 q = g.pick(gone[part])  # re-add something removed earlier
                 op["t"], op["g"] = [list(x) for x in q[0]], q[1]
             op["via"] = g.choice(["graph", "cg", "store"])
+            if veto_mode and g.chance(0.2):
+                op["veto"] = True  # fault: a TripleAddedEvent subscriber of the wrapped store raises during this add
             content.add((tuple(map(_tt, op["t"])), op["g"]))
         elif kind == "addN":
             op["q"] = [[g.pick(subs), g.pick(preds), g.pick(objs), g.randrange(ngraphs)] for _ in range(g.randint(1, 4))]
@@ -160,7 +164,7 @@ def generate(seed, tier):
                 op["via"] = "graph"
             if op.get("g") is None and op["k"] == "remove":
                 op["g"] = 0
-    return {"property": ID, "config": {"two": two, "graphs": graphs, "init": init, "base": "simple" if simple else "memory"}, "ops": ops}
+    return {"property": ID, "config": {"two": two, "graphs": graphs, "init": init, "base": "simple" if simple else "memory", "veto_mode": veto_mode}, "ops": ops}
 
 
 def _tt(spec):
@@ -199,6 +203,20 @@ def execute(trace, ctx):
     for s, p, o, gi in cfg["init"]:
         Graph(base, T(graphs[gi])).add((T(s), T(p), T(o)))
         model.add((skey(s), skey(p), skey(o), skey(graphs[gi])))
+    class SubscriberVeto(Exception):
+        pass
+
+    armed = [False]
+    if cfg.get("veto_mode") and not simple:
+        from rdflib.store import TripleAddedEvent
+
+        def on_add(event):
+            if armed[0]:
+                armed[0] = False
+                ctx.fault("subscriber-raised")
+                raise SubscriberVeto()
+
+        base.dispatcher.subscribe(TripleAddedEvent, on_add)
     wrappers = {}
     snap = {}
     for part in ("A", "B"):
@@ -244,13 +262,24 @@ def execute(trace, ctx):
             elif q in snap[part]:
                 ctx.probe("readd-of-removed-preexisting")
             triple = (T(t[0]), T(t[1]), T(t[2]))
-            if via == "graph":
-                Graph(st, T(gname)).add(triple)
-            elif via == "cg":
-                ConjunctiveGraph(st, identifier=T(graphs[0])).add(triple + (Graph(st, T(gname)),))
+            veto = op.get("veto") and cfg.get("veto_mode") and not simple
+            armed[0] = bool(veto)
+            try:
+                if via == "graph":
+                    Graph(st, T(gname)).add(triple)
+                elif via == "cg":
+                    ConjunctiveGraph(st, identifier=T(graphs[0])).add(triple + (Graph(st, T(gname)),))
+                else:
+                    st.add(triple, Graph(st, T(gname)))
+            except SubscriberVeto:
+                ctx.probe("add-interrupted-by-subscriber")
+            armed[0] = False
+            if veto:
+                # the interrupted add may or may not have taken effect; the store says which - rollback must undo it either way
+                if triple in Graph(base, T(gname)):
+                    model.add(q)
             else:
-                st.add(triple, Graph(st, T(gname)))
-            model.add(q)
+                model.add(q)
         elif k == "addN":
             fa = op.get("fail_after")
             qspecs = op["q"] if fa is None else op["q"][:fa]
